@@ -793,8 +793,125 @@ def r6_exact_index_use(repo=None, rid="C01.R6"):
     return r
 
 
+def r7_cast_targets_keep_the_reported_byte_order(repo=None):
+    """The library is told one byte order for the channel (the constructor's `self.byteorder`, taken from the real element type)
+    and interprets the buffer it receives in that order.  Every dtype the writer casts its input to (`astype(self.X, ...)` /
+    `view(dtype=self.X)` on the way to the extension, private helpers inlined) must therefore carry the byte order of that real
+    type.  Byte-order provenance of the constructor's dtype attributes, over all branches:
+        SAME    the real type itself; a structured type all of whose fields are SAME; <anything>.newbyteorder(<real type>.byteorder);
+                a copy of a SAME attribute
+        NATIVE  np.dtype(<string built without a byte-order character>)  (e.g. "c8" from a format)
+    A cast target that can be NATIVE while the reported order is the real type's is reported: for a big-endian channel on a
+    little-endian host the buffer is then native while the library reads it as big-endian - every value is stored byte-reversed."""
+    r = Rule("C01.R7", "every dtype the input is cast to carries the byte order that is reported to the library")
+    m = pyfront.mod("digital_rf_hdf5", repo)
+    W = "DigitalRFWriter"
+    init = m.flat(W + ".__init__", depth=3).fn()
+    REAL = None
+    # the attribute whose .byteorder is reported
+    for n in ast.walk(init):
+        if isinstance(n, ast.Assign) and len(n.targets) == 1 and pyfront.dotted(n.targets[0]) == "self.byteorder" \
+                and isinstance(n.value, ast.Attribute) and n.value.attr == "byteorder" and (pyfront.dotted(n.value.value) or "").startswith("self."):
+            REAL = pyfront.dotted(n.value.value)
+    if REAL is None:
+        raise AnalysisError("%s.__init__: `self.byteorder = self.<real type>.byteorder` not found" % W)
+
+    def classify(e, env):
+        d = pyfront.dotted(e)
+        if d == REAL:
+            return {"SAME"}
+        if d is not None and d in env:
+            return set(env[d])
+        if isinstance(e, ast.Constant) and e.value is None:
+            return {"NONE"}
+        if isinstance(e, ast.Subscript) and pyfront.dotted(e.value) == REAL:
+            return {"SAME"}
+        if isinstance(e, ast.Call) and isinstance(e.func, ast.Attribute) and e.func.attr == "newbyteorder" and len(e.args) == 1:
+            a = e.args[0]
+            if isinstance(a, ast.Attribute) and a.attr == "byteorder" and pyfront.dotted(a.value) == REAL:
+                return {"SAME"}
+            if pyfront.dotted(a) == "self.byteorder":
+                return {"SAME"}
+            return {"UNKNOWN"}
+        if isinstance(e, ast.Call) and pyfront.call_name(e) in ("np.dtype", "numpy.dtype") and len(e.args) == 1:
+            a = e.args[0]
+            if isinstance(a, (ast.List, ast.Tuple)) and a.elts and all(isinstance(x, ast.Tuple) and len(x.elts) >= 2 for x in a.elts):
+                out = set()
+                for x in a.elts:
+                    out |= classify(x.elts[1], env)
+                return out
+            if isinstance(a, ast.Call) and isinstance(a.func, ast.Attribute) and a.func.attr == "format" and isinstance(a.func.value, ast.Constant) \
+                    and isinstance(a.func.value.value, str) and not any(ch in a.func.value.value for ch in "<>=|"):
+                return {"NATIVE"}
+            if isinstance(a, ast.Constant) and isinstance(a.value, str) and not any(ch in a.value for ch in "<>=|"):
+                return {"NATIVE"}
+            if isinstance(a, ast.JoinedStr) or (isinstance(a, ast.BinOp) and isinstance(a.op, ast.Mod)):
+                return {"NATIVE"} if not any(isinstance(x, ast.Constant) and isinstance(x.value, str) and any(ch in x.value for ch in "<>=|")
+                                             for x in ast.walk(a)) else {"UNKNOWN"}
+            return classify(a, env) if pyfront.dotted(a) else {"UNKNOWN"}
+        return {"UNKNOWN"}
+
+    # flow-insensitive over branches, iterated to a fixpoint: env[attr] = set of provenances of all assignments
+    env = {}
+    changed = True
+    assigns = [n for n in ast.walk(init) if isinstance(n, ast.Assign) and len(n.targets) == 1 and (pyfront.dotted(n.targets[0]) or "").startswith("self.")]
+    rounds = 0
+    while changed and rounds < 6:
+        changed = False
+        rounds += 1
+        for n in assigns:
+            k = pyfront.dotted(n.targets[0])
+            if k in (REAL, "self.byteorder"):
+                continue
+            v = classify(n.value, env)
+            if v == {"UNKNOWN"} and not (isinstance(n.value, ast.Call) and "dtype" in (pyfront.call_name(n.value) or "")) and not (
+                    isinstance(n.value, ast.Call) and isinstance(n.value.func, ast.Attribute) and n.value.func.attr == "newbyteorder"):
+                continue        # not a dtype attribute
+            if not v <= env.get(k, set()):
+                env[k] = env.get(k, set()) | v
+                changed = True
+    # cast targets on the way to the extension
+    n_sites = 0
+    reported = set()
+    for q in (W + ".rf_write", W + ".rf_write_blocks"):
+        fl = m.flat(q, depth=3).fn()
+        for c in ast.walk(fl):
+            if not (isinstance(c, ast.Call) and isinstance(c.func, ast.Attribute) and c.func.attr in ("astype", "view")):
+                continue
+            tgt = c.args[0] if c.args else pyfront.kwarg(c, "dtype")
+            d = pyfront.dotted(tgt) if tgt is not None else None
+            if d is None or not d.startswith("self."):
+                continue
+            if d == REAL:
+                prov = {"SAME"}
+            elif d in env:
+                prov = env[d] - {"NONE"}
+            else:
+                raise AnalysisError("%s: cast target `%s` is not a dtype attribute set in the constructor" % (q, d))
+            n_sites += 1
+            site = "%s:%s %s `%s`" % (m.rel, c.lineno, q, norm(ast.unparse(c))[:70])
+            if prov <= {"SAME"}:
+                r.ok(site, "`%s` always carries the byte order of `%s` (which is what is reported to the library)" % (d, REAL))
+            elif "NATIVE" in prov:
+                defs = [n for n in assigns if pyfront.dotted(n.targets[0]) == d and "NATIVE" in classify(n.value, env)]
+                if (d, getattr(c, "lineno", 0)) in reported:
+                    continue
+                reported.add((d, getattr(c, "lineno", 0)))
+                r.violation(m.rel, W, "`%s = %s` used by `%s`" % (d, norm(ast.unparse(defs[0].value))[:60] if defs else "?", norm(ast.unparse(c))[:50]),
+                            "the input is cast to `%s`, which the constructor can build in *native* byte order, while the library is told "
+                            "the byte order of `%s`: for a big-endian channel on a little-endian host the buffer handed over is "
+                            "little-endian and every value is stored byte-reversed (silently)" % (d, REAL),
+                            line=defs[0].lineno if defs else c.lineno)
+            else:
+                raise AnalysisError("%s: byte order provenance of `%s` not determined (%s)" % (q, d, sorted(prov)))
+    if n_sites < 3:
+        raise AnalysisError("%s: %d cast sites found on the way to the extension, 4 confirmed" % (W, n_sites))
+    r.guard(3)
+    return r
+
+
 def rules(repo=None):
-    return [lambda: r1_dtype_table(repo), lambda: r2_name_format_agreement(repo), lambda: r3_exact_lookup(repo),
+    return [lambda: r7_cast_targets_keep_the_reported_byte_order(repo), lambda: r1_dtype_table(repo), lambda: r2_name_format_agreement(repo), lambda: r3_exact_lookup(repo),
             lambda: r4_extension_passthrough(repo), lambda: r5_interface_agreement(repo), lambda: r6_exact_index_use(repo)]
 
 
